@@ -1,1 +1,100 @@
-From CMinx Require Import Base.Str.
+(* Properties/C01.v -- Doccomment text reaches the output verbatim.
+   Only theorem statements; proofs are in Proofs/CleanFacts.v.  canon_lines ind L are the lines
+   of the Docstring token of a canonical block: the opening line #[[[ (the token starts at the
+   hash, so it carries no indentation), one line  ind ++ hash ++ space ++ l  per body line l (the
+   bare hash for an empty l), the closing line  ind ++ #]] .  L is ARBITRARY: lines starting with
+   hash, brackets or spaces, empty lines, any code points. *)
+From Coq Require Import String List NArith.
+From CMinx Require Import Base.Str Model.Lexer Model.Parser Model.Writer Model.DocTypes Model.Aggregator
+     Model.Pipeline Gen.SourceLiterals Proofs.CleanFacts Proofs.LiteralsMatch.
+Import ListNotations.
+
+(* cleaning removes exactly the delimiters, the uniform indentation and the leader: the body
+   lines come back in order, each unchanged, joined by newlines *)
+Theorem C01_clean_canonical :
+  forall ind L, forallb is_sptab' ind = true ->
+    clean_doc_lines (canon_lines ind L)
+    = match L with [] => [] | _ :: _ => join [nl] L ++ [nl] end.
+Proof. exact clean_canonical. Qed.
+Print Assumptions C01_clean_canonical.
+
+Theorem C01_clean_text_canonical :
+  forall ind L, forallb is_sptab' ind = true -> Forall (fun l => ~ In nl l) L ->
+    clean_doc_text (join [nl] (canon_lines ind L))
+    = match L with [] => [] | _ :: _ => join [nl] L ++ [nl] end.
+Proof. exact clean_text_canonical. Qed.
+Print Assumptions C01_clean_text_canonical.
+
+(* blocks written without the leader *)
+Theorem C01_clean_leaderless :
+  forall L, L <> [] -> forallb plain_line L = true ->
+    clean_doc_lines (doc_open_line :: L ++ [doc_close_line]) = join [nl] L ++ [nl].
+Proof. exact clean_leaderless. Qed.
+Print Assumptions C01_clean_leaderless.
+
+(* whatever command the doccomment is attached to: the new entry's doc is the cleaned text,
+   it is rendered in exactly one paragraph of that entry's directive, line for line, each line
+   prefixed by the three spaces of the directive's content and otherwise unchanged *)
+Theorem C01_canonical_doc_lines_in_output :
+  forall trigger sfn smac ind L c st st',
+    forallb is_sptab' ind = true -> L <> [] -> Forall (fun l => ~ In nl l) L ->
+    enter_documented trigger sfn smac (join [nl] (canon_lines ind L)) c st = Ok st' ->
+    length (documented st') <> length (documented st) ->
+    exists e, last_opt (documented st') = Some e
+      /\ entry_doc e = join [nl] L ++ [nl]
+      /\ In (Para (entry_doc e)) (dir_body (render_entry e))
+      /\ split_on nl (para_text 1 (entry_doc e)) = map (fun l => indent 1 ++ l) (L ++ [[]])
+      /\ (forall hdrs, exists name args opts body pre post,
+            render_entry e = Dir name args opts body
+            /\ elem_text hdrs 0 0 (render_entry e)
+               = pre ++ para_text 1 (entry_doc e) ++ [nl] ++ post).
+Proof. exact canonical_doc_lines_in_output. Qed.
+Print Assumptions C01_canonical_doc_lines_in_output.
+
+(* the doc text occurs once among the direct paragraphs of the entry's directive (no duplication,
+   no attribution to another item: expected_paras lists them per entry kind) *)
+Theorem C01_doc_in_entry_once :
+  forall e, direct_paras (dir_body (render_entry e)) = expected_paras e.
+Proof. exact doc_in_entry_once. Qed.
+Print Assumptions C01_doc_in_entry_once.
+
+Theorem C01_member_and_attribute_docs :
+  forall trigger sfn smac d c st st',
+    enter_documented trigger sfn smac d c st = Ok st' ->
+    length (documented st') <> length (documented st) ->
+    exists e, last_opt (documented st') = Some e /\ entry_doc e = clean_doc_text d.
+Proof. exact enter_documented_doc. Qed.
+Print Assumptions C01_member_and_attribute_docs.
+
+(* the module doccomment *)
+Theorem C01_module_entry_canonical :
+  forall name L, ~ In nl name -> strip_ws name = name -> contains module_kw name = false ->
+    Forall (fun l => ~ In nl l) L ->
+    module_entry (join [nl] (module_lines name L))
+    = EModule name (match L with [] => [] | _ :: _ => join [nl] L ++ [nl] end).
+Proof. exact module_entry_canonical. Qed.
+Print Assumptions C01_module_entry_canonical.
+
+(* non-ASCII characters: decoding the file is the inverse of UTF-8 encoding, with or without a BOM *)
+Theorem C01_utf8_roundtrip :
+  forall x, forallb is_scalar x = true -> utf8_decode (utf8_encode x) = Some x.
+Proof. exact utf8_roundtrip. Qed.
+Print Assumptions C01_utf8_roundtrip.
+
+Theorem C01_decode_source_bom :
+  forall x, forallb is_scalar x = true ->
+    decode_source (239 :: 187 :: 191 :: utf8_encode x)%N = Some x.
+Proof. exact decode_source_bom. Qed.
+Print Assumptions C01_decode_source_bom.
+
+(* the character sets and separators of clean_doc_lines are those of the source *)
+Theorem C01_clean_doc_lines_literals_pinned :
+  get (s"DocumentationAggregator.clean_doc_lines") aggregator_strings
+  = [[hash]; doc_lstrip_set; [sp]; doc_rstrip_set; [nl]; [nl]]
+  /\ geti (s"DocumentationAggregator.clean_doc_lines") aggregator_ints = [0; 0; 1; 1; 1; 0; 1; 1; 1; 1].
+Proof. exact (conj clean_doc_lines_literals clean_doc_lines_ints). Qed.
+Print Assumptions C01_clean_doc_lines_literals_pinned.
+
+Theorem C01_decoder_pinned : get (s"Documenter.__init__") documenter_strings = [s"utf-8-sig"].
+Proof. exact documenter_literals. Qed.
+Print Assumptions C01_decoder_pinned.
